@@ -27,7 +27,7 @@ pub fn tier_count(tier: &str) -> u64 {
         }
     }
     match tier {
-        "thorough" => 1_500_000,
+        "thorough" => 600_000,
         _ => 16_000,
     }
 }
